@@ -124,7 +124,20 @@ func zz16StateKey(k byte) []byte { return []byte{0, 0, 0, 0, 9, 0, 0, k} }
 //zz:opt loop=400 gor=4000 hashdepth=64 sched=0 require=end,deleted,added
 //zz:quick P=2 budget=300s
 //zz:thorough P=2 budget=1800s
-func zzH_C16_commit_revert_root(t *zzT) {
+func zzH_C16_commit_revert_root(t *zzT) { zz16TwoBlocks(t, false) }
+
+// C16 "restart recovery rolls the application state back to the engine's tip" over MORE than one block: after
+// the two real commits above the process restarts with the engine's tip at height 0, 1 or 2 (the application is
+// 2, 1 or 0 blocks ahead, every height with its own state root): Init succeeds, the application's tip record is
+// at the engine's height with the engine's root, and the state store is the one of that height.
+// (seed C16-8 handed the engine tip's root to every single-height rollback step as its expected root.)
+//
+//zz:opt loop=400 gor=4000 hashdepth=64 sched=0 require=recovered-two-blocks,recovered-one-block
+//zz:quick P=2 budget=300s
+//zz:thorough P=2 budget=1800s
+func zzH_C16_init_recovers_blocks(t *zzT) { zz16TwoBlocks(t, true) }
+
+func zz16TwoBlocks(t *zzT, recovery bool) {
 	P := t.Param("P", 2)
 	kind := t.Choice("block2.op", 4) // 0 overwrite, 1 delete present, 2 add new key, 3 delete absent key
 	target := t.Choice("block2.target", P)
@@ -207,6 +220,35 @@ func zzH_C16_commit_revert_root(t *zzT) {
 	r2, err := a.Commit(&labi.CommitRequest{ContextID: []byte{2}, StateRoot: r1.StateRoot, ExpectedStateRoot: dry.StateRoot})
 	t.Assert(err == nil && r2 != nil && bytes.Equal(r2.StateRoot, dry.StateRoot), "the dry run and the real Commit agree on the state root")
 	if err != nil {
+		return
+	}
+	if recovery {
+		eng := uint32(t.Range("engine.height", 0, 2))
+		roots := [][]byte{emptyHash, r1.StateRoot, r2.StateRoot}
+		restarted := &ABIHandler{logger: zz16Logger{}, stateDB: database}
+		_, ierr := restarted.Init(&labi.InitRequest{ChainID: []byte{0, 0, 0, 1}, LastBlockHeight: eng, LastStateRoot: roots[eng]})
+		t.Assert(ierr == nil, "restart recovery succeeds when the application is 0, 1 or 2 blocks ahead of the engine")
+		if ierr != nil {
+			return
+		}
+		st, ok := database.Get(bytes.Join(StateDBPrefixTreeState, emptyBytes))
+		t.Assert(ok && len(st) == 36 && bytes.ToUint32(st[:4]) == eng && bytes.Equal(st[4:], roots[eng]), "after recovery the application's tip record is the engine's height and root")
+		now := database.Iterate(StateDBPrefixState, -1, false)
+		switch eng {
+		case 0:
+			t.Assert(len(now) == 0, "recovery to height 0 leaves an empty state store")
+			t.Reach("recovered-two-blocks")
+		case 1:
+			same := len(now) == len(after1)
+			if same {
+				for i := range now {
+					same = same && bytes.Equal(now[i].Key(), after1[i].Key()) && bytes.Equal(now[i].Value(), after1[i].Value())
+				}
+			}
+			t.Assert(same, "recovery to height 1 restores the state store of block 1")
+			t.Reach("recovered-one-block")
+		}
+		t.Reach("end")
 		return
 	}
 	// revert block 2
